@@ -41,7 +41,13 @@ theorem C05.addRawTx_error_noop (n : Node) (ts : Nat) (h : String) (idx : Nat) (
       · rw [if_neg h2] at he ⊢
         split <;> rfl
     · rw [if_neg h1] at he ⊢
-      exact (addTxs_err he).2
+      rcases drainCheck_cases n sender (n.accountNonce sender + 1)
+        (drainPlan n sender n.nextHeight FUTURE_NONCES (n.accountNonce sender + 1)).2
+        (n.addTxs ts h idx (some txid) evs
+          (some (1 + (drainPlan n sender n.nextHeight FUTURE_NONCES (n.accountNonce sender + 1)).1))) with e' | ⟨_, e'⟩
+      · rw [e'] at he ⊢
+        exact (addTxs_err he).2
+      · rw [e']
 
 theorem C05.finalise_error_noop (n : Node) (ts : Nat) (h : String) (count : Nat) (evs : List Ev) (e : String)
     (he : (n.finaliseOne ts h count evs).2 = .err e) : (n.finaliseOne ts h count evs).1 = n := by
@@ -225,6 +231,9 @@ theorem C05.mine_error_noop_own_hash (n : Node) (count ts : Nat) (evs : List Ev)
 
 namespace C05.Example
 open Node.Example
+
+-- the parked row of `Node.Example` is a 162-character string that `decide` has to walk through
+set_option maxRecDepth 8192
 
 /-- two blocks mined on the empty node; the recorded writes of block 0 contain, besides the rows of block 0, a
 hash-index row keyed by the hash block 1 is going to get -/
